@@ -450,6 +450,15 @@ def run_c09(tier_: str) -> int:
                 expect_miss("key-version-off-by-one", index.load_payload_module, (k, v, EntityType.request), (UE,))
             for et in (EntityType.header, EntityType.data, EntityType.nested):
                 expect_miss("key-wrong-entity-type", index.load_payload_module, (k, vs[0], et), (UE,))
+    # entity types that are not EntityType members at all ("arbitrary integers/strings"): the member's name or value instead of the member, None
+    for api in apis[:: max(1, len(apis) // 12)]:
+        vs = sorted(set(versions_of[api]))
+        for bogus in ("request", "response", "Request", 0, 1, -1, None, "nested", ""):
+            for fn in fns_name:
+                expect_miss("entity-type-not-a-member", fn, (api, vs[-1], bogus), (UE,))
+                expect_miss("entity-type-not-a-member", fn, (api, vs[-1] + 1, bogus), (UE,))
+            if api in key_of:
+                expect_miss("entity-type-not-a-member", index.load_payload_module, (key_of[api], vs[0], bogus), (UE,))
     all_keys = sorted(keys)
     near_keys = [-1, all_keys[-1] + 1, all_keys[-1] + 2, -(2**15), 2**15, 2**31] + [k for k in range(all_keys[0], all_keys[-1]) if k not in keys]
     for k in near_keys:
